@@ -49,9 +49,9 @@ const TIME_RULE_VEC: [&str; 11] = [
     "%Y%m%d",
     "%Y%m%d %H%M%S",
     "%d/%m/%Y",
-    "%d/%m/%Y H%M%S",
+    "%d/%m/%Y %H%M%S",
     "%Y%m%d%H%M%S",
-    "%d/%m/%YH%M%S",
+    "%d/%m/%Y%H%M%S",
     "%Y/%m/%d",
     "%Y/%m/%d %H:%M:%S",
 ];
